@@ -151,7 +151,7 @@ def gotoh(query, target):
 
 
 class ReadRec:
-    __slots__ = ("name", "line", "read", "qs", "qe", "ps", "pe", "walk", "target", "true_ops", "in_cigar")
+    __slots__ = ("name", "line", "read", "qs", "qe", "ps", "pe", "walk", "target", "true_ops", "in_cigar", "shared_with", "owner")
 
 
 def make_read_record(g, rng, walk, name, tags="safe", max_span=None, min_span=1, rate=None, frag=True,
@@ -188,6 +188,8 @@ def make_read_record(g, rng, walk, name, tags="safe", max_span=None, min_span=1,
     else:
         cols += list(tags) + [f"cg:Z:{cg}"]
     r = ReadRec()
+    r.shared_with = None
+    r.owner = None
     r.name, r.line, r.read, r.qs, r.qe, r.ps, r.pe, r.walk, r.target = name, "\t".join(cols), read, qs, qe, ps, pe, walk, target
     r.true_ops, r.in_cigar = ops, cg
     return r
